@@ -39,7 +39,7 @@ c.finish(
         "translator constant maxDegree (coq/Gen/Gen_C16.v)",
     ],
     partial=[
-        "fanout_partial: no written node has more than maxDegree kids; the full statement (Definition fanout_full: the panic branch of mergeNodes and the index expressions of merge/collapse are unreachable) is not proved - every program of the harness is run on the real writer under recover()",
+        "fanout_partial: no written node has more than maxDegree kids in any run that does not panic; the full statement (Definition fanout_full: the panic branch of mergeNodes is unreachable) is REFUTED: fanout_refuted exhibits a program on which Close panics (known finding panic:mergeNodes-single-node-after-full-run, confirmed on the real writer)",
         "page_numbers_partial: proved for programs that use the root range only; page_numbers_full (Definition: any nesting of ranges) is not proved - the executable futureInt model, the Coq specification spec_log, the Go statement of it and the real callbacks are compared on every program",
         "the theorems about the written tree are of the form `run prog = Ok out -> ...`: Ok excludes the Go panics the model represents as Err Panic (fanout_full); running out of fuel is excluded for every program by no_fuel_exhaustion",
     ],
